@@ -88,7 +88,7 @@ func propC05(r *kernel.Run) {
 		}
 		return out
 	}
-	ncases := tp.Range(6, 20)
+	ncases := tp.Range(6, r.Deep(20, 60))
 	for ci := 0; ci < ncases; ci++ {
 		// register/remove history: the operator removes a record (or restores a removed one) between requests
 		if tp.Draw(6) == 0 {
